@@ -295,6 +295,15 @@ theorem mvc_correct (g : Graph) (hg : g.WF) :
     simp [minimumVertexCover, hM0, hc]
   exact ⟨_, cu, cv, hmvc, hM0, mvc_ok_correct g hg _ cu cv hmvc⟩
 
+/-- No error exit is possible: no fuel of the model is ever exhausted (so the fuels are not a
+    restriction of the model) and the `assert` of `minimum_vertex_cover` never fails. -/
+theorem mvc_no_error (g : Graph) (hg : g.WF) (e : Err) : minimumVertexCover g ≠ .error e := by
+  obtain ⟨M, cu, cv, h, _⟩ := mvc_correct g hg
+  rw [h]; simp
+
+theorem mvc_assert_never_fails (g : Graph) (hg : g.WF) :
+    minimumVertexCover g ≠ .error .assertion := mvc_no_error g hg _
+
 /-- The same, end to end from the constructor arguments: for non-empty sides and in-range entries
     (repeated entries and isolated vertices allowed) the graph is built and the returned lists touch
     every *entry*, contain only vertices below `nU` / `nV`, and have the size of a maximum matching
